@@ -26,7 +26,7 @@ pub fn install() {
         } else {
             "<non-string payload>".to_string()
         };
-        if msg.starts_with("harness:") {
+        if msg.starts_with("harness:") || std::env::var_os("VERIF_DEBUG").is_some() {
             // a bug in the harness itself must be loud
             eprintln!("HARNESS PANIC at {}:{}: {}", file, line, msg);
         }
